@@ -735,8 +735,10 @@ pub fn replay(all: &[&'static Scenario], path: &str) -> i32 {
             let same_hash = doc["log_hash"].as_u64() == Some(out.log_hash);
             println!("replay: reproduced [{}] {} (event-log hash {})", v.class, v.msg, if same_hash { "identical" } else { "DIFFERS" });
             if !same_hash && doc["log_hash"].is_u64() {
-                eprintln!("replay diverged: same violation class but a different event log");
-                return 2;
+                // same violation, but not the identical execution (see DESIGN.md 13.5: the one known
+                // source is an endpoint answering a packet of a connection it has already forgotten,
+                // which depends on TLS-random packet contents)
+                eprintln!("note: same violation class but the event log differs from the recorded one");
             }
             println!("VIOLATION property={} replay={}", scen.id, path);
             1
